@@ -352,10 +352,6 @@ def eval_ee(line, hout, dout, wtab, stats, notes):
                             stats["max_model_err_at"] = "%s row %d (lin %d circ %d) impl %r model %r oracle %r tol %.3g: %s" % (where, r, lin, circ, x, y, ev[0], tol, line[:60])
                     if not dd <= tol:
                         bad = "estimate row %d: implementation %r, model %r" % (r, x, y)
-                        if r >= lin and ev is not None and "one-column-shortcut" in " ".join(dt) and angdiff(x, ev[0]) <= tol:
-                            # the model returns a single column unwrapped (as the code did when it was written);
-                            # the implementation returns the value the property asks for
-                            explained = "one-column-shortcut-absent-in-implementation"
                         break
             if bad:
                 here_fail = [p for p in probs if p[0] == "prop" and p[2].startswith(where)]
@@ -618,8 +614,8 @@ def method_matrix(g):
 
 
 def witness_cases():
-    """witnesses of `mean_circular_counterexample` (one particle at angle 7, weight 1) and of its
-    windowed form (first windowed call after construction / clear)"""
+    """regression for the defect repaired by e5e0548 (theorem `mean_single_particle_wrapped`): one particle
+    at angle 7 with weight 1, and the windowed form (first windowed call after construction / clear)"""
     one = {"op": "X", "ps": [[7.0]], "ws": [0.0]}
     two = {"op": "X", "ps": [[7.0], [0.5]], "ws": [0.0, -3.0]}
     return [ser_ee(0, 1, [{"op": "M", "m": 0}, one]),
